@@ -7,7 +7,7 @@ the outcome (made wrapper / returned token / raised) with what the contract dema
 from __future__ import annotations
 import ast
 from typing import Any, Dict, Optional, Tuple
-from .dictsem import DictInterp, Unsupported, Raised, _Return
+from .dictsem import DictInterp, Unsupported, Raised, _Return, ADict
 
 
 class AObj:
@@ -32,6 +32,9 @@ class Closure:
 
 
 class KindInterp(DictInterp):
+    functions: Dict[str, Any] = {}        # name -> ast.FunctionDef of module-level functions that may be called (recursion included)
+    depth = 0
+
     def ev(self, e):
         if isinstance(e, ast.Attribute) and not ast.unparse(e) in self.env:
             try:
@@ -42,6 +45,8 @@ class KindInterp(DictInterp):
                 if e.attr in v.attrs:
                     return v.attrs[e.attr]
                 raise Raised("AttributeError %s.%s" % (v.name, e.attr))
+            if e.attr == "__dict__" and type(v).__name__ == "Tok":
+                return ADict({}, "tensor.__dict__")
         if isinstance(e, ast.BinOp) and isinstance(e.op, ast.Mult):
             l_, r_ = self.ev(e.left), self.ev(e.right)
             if isinstance(l_, list) and isinstance(r_, int) and not isinstance(r_, bool):
@@ -63,9 +68,26 @@ class KindInterp(DictInterp):
         fn = ast.unparse(c.func)
         if fn == "isinstance" and len(c.args) == 2:
             v = self.ev(c.args[0])
+            types = [ast.unparse(t) for t in (c.args[1].elts if isinstance(c.args[1], ast.Tuple) else [c.args[1]])]
             if isinstance(v, AObj):
-                types = [ast.unparse(t) for t in (c.args[1].elts if isinstance(c.args[1], ast.Tuple) else [c.args[1]])]
                 return any(t in v.classes for t in types)
+            if set(types) & {"list", "dict", "tuple", "List", "Dict", "Tuple", "Mapping", "Sequence"} or isinstance(v, (list, tuple, ADict)):
+                from .dictsem import Tok as _Tok
+                def one(t):
+                    if t in ("list", "List"):
+                        return isinstance(v, list)
+                    if t in ("tuple", "Tuple"):
+                        return isinstance(v, tuple)
+                    if t in ("dict", "Dict", "Mapping"):
+                        return isinstance(v, ADict)
+                    if t == "Sequence":
+                        return isinstance(v, (list, tuple))
+                    if t in ("torch.Tensor", "Tensor"):
+                        return isinstance(v, _Tok) and v.is_tensor
+                    if t in ("int", "float", "str", "bool"):
+                        return isinstance(v, {"int": int, "float": float, "str": str, "bool": bool}[t])
+                    raise Unsupported("isinstance(.., %s)" % t)
+                return any(one(t) for t in types)
         if fn in ("inspect.isfunction", "isfunction", "inspect.ismethod", "ismethod", "callable") and len(c.args) == 1:
             v = self.ev(c.args[0])
             if isinstance(v, AObj):
@@ -77,6 +99,9 @@ class KindInterp(DictInterp):
         if fn == "hasattr" and len(c.args) == 2:
             v = self.ev(c.args[0])
             a = self.ev(c.args[1])
+            if a == "__dict__" and not isinstance(v, AObj):
+                from .dictsem import Tok as _Tok
+                return isinstance(v, _Tok)            # tensors (and other objects) have one; lists, dicts, tuples, numbers do not
             if isinstance(v, AObj) and isinstance(a, str):
                 return a in v.attrs or ("%s.%s" % (ast.unparse(c.args[0]), a)) in self.env
         if fn == "id" and len(c.args) == 1 and not c.keywords:
@@ -109,6 +134,34 @@ class KindInterp(DictInterp):
             v = self.ev(c.args[0].value)
             if isinstance(v, (list, tuple)) and all(isinstance(x, (list, tuple)) for x in v):
                 return [tuple(t_) for t_ in zip(*v)]
+        if isinstance(c.func, ast.Attribute) and c.func.attr == "pop" and len(c.args) <= 1 and not c.keywords:
+            recv_ = self.ev(c.func.value)
+            if isinstance(recv_, list):
+                k_ = self.ev(c.args[0]) if c.args else -1
+                if not isinstance(k_, int) or not -len(recv_) <= k_ < len(recv_):
+                    raise Raised("IndexError: pop")
+                return recv_.pop(k_)
+        if isinstance(c.func, ast.Name) and fn in self.functions and fn not in self.env and not c.keywords \
+                and not any(isinstance(a, ast.Starred) for a in c.args):
+            if self.depth > 12:
+                raise Unsupported("recursion depth")
+            fnode = self.functions[fn]
+            ps = [a.arg for a in fnode.args.args]
+            if len(c.args) > len(ps) or fnode.args.vararg or fnode.args.kwarg:
+                raise Unsupported("call of %s" % fn)
+            env = dict(zip(ps, [self.ev(a) for a in c.args]))
+            for p_, d_ in zip(ps[::-1], list(fnode.args.defaults)[::-1]):
+                if p_ not in env:
+                    env[p_] = self.ev(d_)
+            if len(env) != len(ps):
+                raise Unsupported("missing arguments of %s" % fn)
+            sub = type(self)(env)
+            sub.functions, sub.depth = self.functions, self.depth + 1
+            try:
+                sub.run(fnode.body)
+            except _Return as r:
+                return r.v
+            return None
         last = fn.split(".")[-1]
         if isinstance(c.func, ast.Name) and type(self.env.get(fn)).__name__ in ("function", "builtin_function_or_method") and not c.keywords:
             return self.env[fn](*[self.ev(a) for a in c.args])        # a host stand-in for a collaborator whose contract another rule decides
